@@ -49,6 +49,10 @@ def worker(arg):
                 roots = [plants_abs] + roots
             elif c["extra"] == "after":
                 roots = roots + [plants_abs]
+            elif c["extra"] == "name-before":
+                roots = ["felines"] + roots
+            elif c["extra"] == "name-after":
+                roots = roots + ["felines"]
             succeeded = None
             try:
                 if c["api"] == "files":
